@@ -43,8 +43,64 @@ fn n_asn1(t: Tier) -> usize {
 fn n_fault_docs(t: Tier) -> usize {
     t.pick(2, 40) * (PK_ENCS.len() + SK_ENCS.len() + 1)
 }
+const N_SEMANTIC: usize = 2;
 pub fn runs_c19(t: Tier) -> usize {
-    1 + n_dist(t) + n_asn1(t) + n_fault_docs(t) * CHUNKS
+    1 + n_dist(t) + n_asn1(t) + n_fault_docs(t) * CHUNKS + N_SEMANTIC
+}
+
+/// Well-formed documents whose FIELDS have the wrong size: privateKey OCTET STRING of 0..=40
+/// bytes (leading byte zero / non-zero), SPKI BIT STRING of many lengths and prefixes. No
+/// truncation or single-byte corruption of a valid document produces these.
+pub fn semantic_docs(p: &mut Prng, w: &mut World, which: usize) {
+    use crate::ops_doc::pem_wrap;
+    use crate::refmodel::der;
+    let n = n_sm2();
+    let (d, _) = scalar_class(p, &n);
+    let point = rsm2::with_curve(|c| c.encode_point(&c.mul_g(&d), false));
+    if which == 0 {
+        for len in 0..=40usize {
+            for lead in [0u8, 1, 0x80] {
+                let mut dv = p.bytes(len);
+                if len > 0 {
+                    dv[0] = lead;
+                }
+                for with_pub in [false, true] {
+                    let pubk = if with_pub { Some(&point[..]) } else { None };
+                    let p8 = der::pkcs8_build_raw(&dv, pubk);
+                    w.exec(set("sd.doc", &p8));
+                    w.exec(json!({"op":"doc.sk.read","impl":"lib","enc":"pkcs8-der","doc":"sd.doc"}));
+                    w.exec(set("sd.doc", &pem_wrap("PRIVATE KEY", &p8)));
+                    w.exec(json!({"op":"doc.sk.read","impl":"lib","enc":"pkcs8-pem","doc":"sd.doc"}));
+                    for params in [false, true] {
+                        w.exec(set("sd.doc", &der::sec1_build_raw(&dv, pubk, params)));
+                        w.exec(json!({"op":"doc.sk.read","impl":"lib","enc":"sec1-der","doc":"sd.doc"}));
+                    }
+                }
+            }
+        }
+    } else {
+        for len in (0..=70usize).chain([96, 97, 128, 129]) {
+            for pre in [0x00u8, 0x02, 0x03, 0x04, 0x06, 0xff] {
+                let mut pt = p.bytes(len);
+                if len > 0 {
+                    pt[0] = pre;
+                }
+                // also the true coordinates cut / padded to that length
+                let mut cut = point.clone();
+                cut.resize(len, 0);
+                if len > 0 {
+                    cut[0] = pre;
+                }
+                for body in [pt, cut] {
+                    let spki = der::spki_build(&body);
+                    w.exec(set("sd.doc", &spki));
+                    w.exec(json!({"op":"doc.pk.read","impl":"lib","enc":"spki-der","doc":"sd.doc"}));
+                    w.exec(set("sd.doc", &pem_wrap("PUBLIC KEY", &spki)));
+                    w.exec(json!({"op":"doc.pk.read","impl":"lib","enc":"spki-pem","doc":"sd.doc","fromstr":len % 2 == 0}));
+                }
+            }
+        }
+    }
 }
 
 fn fault(slot: &str, kind: &str, extra: Value) -> Value {
@@ -281,6 +337,12 @@ pub fn run_c19(p: &mut Prng, t: Tier, i: usize, sink: &mut Sink) {
         return;
     }
     i -= n_asn1(t);
+    if i >= n_fault_docs(t) * CHUNKS {
+        semantic_docs(p, &mut w, i - n_fault_docs(t) * CHUNKS);
+        w.bump("history.semantic-documents");
+        sink.done(w);
+        return;
+    }
     let (didx, chunk) = (i / CHUNKS, i % CHUNKS);
     fault_doc_run(t, &mut w, didx, chunk, sink);
     if chunk == 0 {
